@@ -392,3 +392,64 @@ func c01Lengths(max int) {
 
 func C01Lengths()     { c01Lengths(1100) }
 func C01LengthsDeep() { c01Lengths(8300) }
+
+// zzFragReader delivers its data k bytes at a time; with eofWithData the last fragment comes together
+// with io.EOF (both are what the io.Reader contract allows a stream to do).
+type zzFragReader struct {
+	data        []byte
+	k           int
+	eofWithData bool
+}
+
+func (f *zzFragReader) Read(p []byte) (int, error) {
+	if len(f.data) == 0 {
+		return 0, io.EOF
+	}
+	n := f.k
+	if n > len(p) {
+		n = len(p)
+	}
+	if n > len(f.data) {
+		n = len(f.data)
+	}
+	copy(p, f.data[:n])
+	f.data = f.data[n:]
+	if len(f.data) == 0 && f.eofWithData {
+		return n, io.EOF
+	}
+	return n, nil
+}
+
+// C01ManyFragments: a message whose payload (every length 0..400, solver-enumerated) crosses the
+// stream in fragments of 1, 2 or 3 bytes — hundreds of them — in both directions: the writer takes
+// k bytes per Write, the reader hands out k bytes per Read, the last one possibly together with
+// io.EOF. The wire is header+payload and the message reads back identical, however many fragments.
+func C01ManyFragments() {
+	n := sym.Concrete(sym.Int("payload-length", 0, 400))
+	k := 1 + sym.Choose("fragment-size", 3)
+	payload := make([]byte, n)
+	if n > 0 {
+		payload[0], payload[n/2], payload[n-1] = sym.U8("first"), sym.U8("middle"), sym.U8("last")
+	}
+	m := NewMessage(c01SymHeader(), payload)
+	var buf bytes.Buffer
+	sym.Assert(m.Write(&zzShortWriter{w: &buf, max: k}) == nil, "fragments/write-ok")
+	wire := buf.Bytes()
+	if len(wire) != 28+n {
+		sym.Fail("fragments/wire-length")
+		return
+	}
+	sym.Assert(sym.EqBytes(wire[:28], c01Layout(m.Header, payload)[:28]), "fragments/header-layout")
+	if n > 0 {
+		sym.Assert(sym.And(wire[28] == payload[0], sym.And(wire[28+n/2] == payload[n/2], wire[28+n-1] == payload[n-1])), "fragments/payload-on-wire")
+	}
+	r := &zzFragReader{data: append([]byte{}, wire...), k: k, eofWithData: sym.Bool("eof-with-last-fragment")}
+	var back Message
+	sym.Assert(back.Read(r) == nil, "fragments/read-ok")
+	sym.Assert(len(r.data) == 0, "fragments/consumed-exactly")
+	sym.Assert(back.Header == m.Header && len(back.Payload) == n, "fragments/read-back-shape")
+	if n > 0 && len(back.Payload) == n {
+		sym.Assert(sym.And(back.Payload[0] == payload[0], sym.And(back.Payload[n/2] == payload[n/2], back.Payload[n-1] == payload[n-1])), "fragments/read-back-payload")
+	}
+	sym.Reach("fragments-done")
+}
